@@ -461,7 +461,7 @@ def model_check(items, starters, name='C20/cases'):
     for off in range(0, len(items), CH):
         it = Interner()
         rows = [coq_case(sp, stp, starters, it) for sp, stp in items[off:off + CH]]
-        body = '\n'.join(it.defs) + '\nDefinition cases := [\n' + ';\n'.join(rows) + '\n].\nEval vm_compute in failing 0 cases.\n'
+        body = '\n'.join(it.defs) + '\nDefinition cases : list (oracle * cmd * state * list (nat * string * string) * state) := [\n' + ';\n'.join(rows) + '\n].\nEval vm_compute in failing 0 cases.\n'
         rc, out, err = run_cases(f'{name}_{off // CH}', HEADER, body)
         m = re.search(r'=\s*\[(.*?)\]\s*:\s*list \(nat \* nat\)', out, re.S)
         if rc != 0 or not m:
@@ -512,6 +512,13 @@ def shrink(case, step_index, signature, budget=18):
                 cur = cand
             else:
                 i += 1
+    last = cur['specs'][-1]
+    if last['k'] == 'up' and (not last['embedded'] or last['fmt'] != 'html' or last['out']):
+        cand = norm({'files': cur['files'], 'dirs': cur['dirs'],
+                     'specs': cur['specs'][:-1] + [dict(last, embedded=True, fmt='html', out=None)]})
+        trials += 1
+        if fails_with(cand, signature):
+            cur = cand
     for p in sorted(cur['files']):
         if trials >= budget:
             break
@@ -614,17 +621,23 @@ def main(tier):
                 items.append((spec, step, ci, si))
             for s, d in direct_oracle(spec, step):
                 viol.setdefault(s, []).append((ci, si, d))
-    # report each distinct signature once, shrunk
+    # known findings: one KNOWN-FINDING line per listed signature; unknown signatures: one shrunk replay per command
+    known_sigs = {f.get('signature') for f in run.findings if f.get('status') == 'finding'}
+    for s in sorted(viol):
+        if s in known_sigs:
+            run.violation('write', {'kind': 'counterexample'}, signature=s)
+    by_label = {}
     for s, occ in sorted(viol.items()):
+        if s not in known_sigs:
+            by_label.setdefault(cmd_label(cases[occ[0][0]]['specs'][occ[0][1]]), []).append(s)
+    for label, sigs in sorted(by_label.items()):
+        s = sigs[0]
+        occ = viol[s]
         ci, si, d = min(occ, key=lambda x: (x[1], len(cases[x[0]]['files'])))
-        known = any(f.get('status') == 'finding' and f.get('signature') == s for f in run.findings)
-        if known:
-            small, trials = {'files': cases[ci]['files'], 'dirs': cases[ci]['dirs'], 'specs': cases[ci]['specs'][:si + 1],
-                             'cmds': cases[ci]['cmds'][:si + 1]}, 0
-        else:
-            small, trials = shrink(cases[ci], si, s, budget=18 if tier == 'quick' else 60)
+        small, trials = shrink(cases[ci], si, s, budget=18 if tier == 'quick' else 60)
         run.violation('write', {'kind': 'counterexample', 'case': {k: small[k] for k in ('files', 'dirs', 'specs', 'cmds')},
                                 'failing_step': len(small['specs']) - 1, 'detail': d, 'n_occurrences': len(occ),
+                                'all_signatures_of_this_command': {x: len(viol[x]) for x in sigs},
                                 'expected': 'C20: only report files in the output location are written; user files keep their bytes '
                                             '(settings may gain a suffix; a migrated CSV is kept as .bak)',
                                 'obligation': 'direct oracle on strace + content hashes', 'broken': broken,
